@@ -134,7 +134,7 @@ def run(ctx):
     entry = [CLS_ID[c.__name__] for c in registry.entry_point_conventions]
     id_cls = {CLS_ID[c.__name__]: c for c in registry.entry_point_conventions}
     ctx.notes.append(f'entry point order read at run time: {[c.__name__ for c in registry.entry_point_conventions]}')
-    synth_specs = {7: 10, 8: 30, 9: 30, 10: 20, 11: None}
+    synth_specs = {7: 10, 8: 30, 9: 30, 10: 20, 11: None, 12: 0}        # 12: a catch-all fallback of specificity 0
     synth = {i: make_synthetic(i, s) for i, s in synth_specs.items()}
     id_cls.update(synth)
     cls_id = {v: k for k, v in id_cls.items()}
@@ -149,14 +149,14 @@ def run(ctx):
     n_ds = 10 if quick else 60
     regs = [()]
     for r in (1, 2, 3):
-        pool = list(itertools.permutations([7, 8, 9, 10, 11], r))
+        pool = list(itertools.permutations([7, 8, 9, 10, 11, 12], r))
         regs += pool if not quick else rng.sample(pool, 6 if r > 1 else 5)
     for n in range(n_ds):
         d = gen.any_dataset(rng, gen.FAMILIES[n % len(gen.FAMILIES)])
         for label, ds in near_misses(rng, d):
             f = features_of(ds)
             flit = features_literal(f)
-            for reg in (regs if not quick else [()] + rng.sample(regs, 4)):
+            for reg in (regs if not quick else [(), (12,), rng.choice([(11, 12), (12, 7), (12, 11)])] + rng.sample(regs, 3)):
                 exprs.append(f'(guess {check_expr(flit)} (conventions {to_coq(list(reg))} {to_coq(entry)}))')
                 plans.append((d, label, ds, f, reg))
     model = coq_eval_sharded(['Model.Registry'], exprs, shard=max(30, len(exprs) // 14), workers=14)
